@@ -62,7 +62,8 @@ CASES = [
 ]
 import py2lean_np, py2lean_scatter, py2lean_imp, py2lean_holdout, py2lean_arrow, py2lean_cand, py2lean_neg, py2lean_als, py2lean_agg, py2lean_rank
 # other per-run translators: (generated file, obligations module, generator, its Unsupported)
-OTHER = {"C06rank": ("RankC06.lean", "LK.Proofs.RankC06", py2lean_rank.generate, py2lean_rank.Unsupported),
+OTHER = {"C19lin": ("ImpC19.lean", "LK.Proofs.ImpC19", py2lean_imp.translate_linear, py2lean_imp.Unsupported),
+         "C06rank": ("RankC06.lean", "LK.Proofs.RankC06", py2lean_rank.generate, py2lean_rank.Unsupported),
          "C07agg": ("AggC07.lean", "LK.Proofs.AggC07", py2lean_agg.generate, py2lean_agg.Unsupported),
          "C10als": ("AlsC10.lean", "LK.Proofs.AlsC10", py2lean_als.generate, py2lean_als.Unsupported),
          "C20neg": ("NegC20.lean", "LK.Proofs.NegC20", py2lean_neg.translate, py2lean_neg.Unsupported),
@@ -75,6 +76,9 @@ OTHER = {"C06rank": ("RankC06.lean", "LK.Proofs.RankC06", py2lean_rank.generate,
          "C08np": ("NpC08.lean", "LK.Proofs.NpC08", py2lean_np.translate_learn, py2lean_np.Unsupported),
          "C04sc": ("ScatterC04.lean", "LK.Proofs.ScatterC04", py2lean_scatter.generate, py2lean_scatter.Unsupported)}
 CASES += [
+ ("C19lin", "stochastic/_ranker.py", "                if r > 0:\n                    scores /= r", "                if r > np.finfo(scores.dtype).eps:\n                    scores /= r", "break"),
+ ("C19lin", "stochastic/_ranker.py", "                        weights = scores / tot", "                        weights = scores", "break"),
+ ("C19lin", "stochastic/_ranker.py", "                scores -= lb\n", "                scores -= ub\n", "break"),
  ("C06rank", "metrics/ranking/_pr.py", "        return ngood / nrecs", "        return ngood / len(test)", "break"),
  ("C06rank", "metrics/ranking/_recip.py", "            return 1.0 / (npz[0] + 1.0)", "            return 1.0 / npz[0]", "break"),
  ("C06rank", "metrics/ranking/_rbp.py", "            max = np.sum(disc[: min(nrel, k)])", "            max = np.sum(disc[:nrel])", "break"),
